@@ -314,27 +314,40 @@ func genSeq(r *rand.Rand, n int) []sEvent {
 }
 
 // slimEvent keeps the fields the event's hook method reads (the others are zero anyway).
-func slimEvent(e sEvent) map[string]any {
-	m := map[string]any{"ev": "event", "op": e.Op}
+type slimEv struct {
+	Ev      string      `json:"ev"`
+	Op      string      `json:"op"`
+	C       *cliSpec    `json:"c,omitempty"`
+	Expire  *bool       `json:"expire,omitempty"`
+	Filters *[]filtSpec `json:"filters,omitempty"`
+	Codes   *[]int      `json:"codes,omitempty"`
+	Pk      *pkSpec     `json:"pk,omitempty"`
+	R       *int        `json:"r,omitempty"`
+	Sent    *int        `json:"sent,omitempty"`
+	Sys     *sysRec     `json:"sys,omitempty"`
+}
+
+func slimEvent(e sEvent) slimEv {
+	m := slimEv{Ev: "event", Op: e.Op}
 	switch e.Op {
 	case "established", "will_sent", "client_expired":
-		m["c"] = e.C
+		m.C = &e.C
 	case "disconnect":
-		m["c"], m["expire"] = e.C, e.Expire
+		m.C, m.Expire = &e.C, &e.Expire
 	case "subscribed":
-		m["c"], m["filters"], m["codes"] = e.C, e.Filters, e.Codes
+		m.C, m.Filters, m.Codes = &e.C, &e.Filters, &e.Codes
 	case "unsubscribed":
-		m["c"], m["filters"] = e.C, e.Filters
+		m.C, m.Filters = &e.C, &e.Filters
 	case "retain":
-		m["c"], m["pk"], m["r"] = e.C, e.Pk, e.R
+		m.C, m.Pk, m.R = &e.C, &e.Pk, &e.R
 	case "qos_publish":
-		m["c"], m["pk"], m["sent"] = e.C, e.Pk, e.Sent
+		m.C, m.Pk, m.Sent = &e.C, &e.Pk, &e.Sent
 	case "qos_complete", "qos_dropped":
-		m["c"], m["pk"] = e.C, e.Pk
+		m.C, m.Pk = &e.C, &e.Pk
 	case "retained_expired":
-		m["pk"] = e.Pk
+		m.Pk = &e.Pk
 	case "sys_tick":
-		m["sys"] = e.Sys
+		m.Sys = &e.Sys
 	}
 	return m
 }
